@@ -54,21 +54,28 @@ AllFlags == {"service-handler-not-repointed", "notify-del-returns-early", "dm-de
              "dm-start-order-arbitrary", "dm-service-owner-is-evaluator-name", "dm-service-multi-arg-rejected"}
 
 Dc(st, ev, tt, svc, resp, sf) == [st |-> st, ev |-> ev, tt |-> tt, svc |-> svc, resp |-> resp, sf |-> sf]
-DeclsSvc  == { Dc({}, {}, {}, {"s1"}, "none", "stack"),        Dc({}, {}, {}, {"s1"}, "optional", "stack"),
-               Dc({}, {}, {}, {"s1", "s2"}, "only", "stack"),  Dc({}, {"e1"}, {}, {"s2"}, "none", "stack") }
-DeclsTrig == { Dc({"a"}, {}, {}, {}, "none", "stack"),         Dc({"a", "a.old", "b"}, {"e1"}, {}, {}, "none", "stack"),
-               Dc({}, {"e1"}, {"startup", "shutdown"}, {}, "none", "stack"),
-               Dc({"b"}, {}, {"timer"}, {"s1"}, "none", "stack") }
-DeclsMulti == { Dc({"a", "a.old", "b", "c"}, {}, {}, {}, "none", "stack"), Dc({"b"}, {}, {}, {}, "none", "stack") }
-DeclsArgs  == { Dc({}, {"e1"}, {}, {"s1", "s2"}, "none", "args"), Dc({}, {}, {}, {"s1"}, "none", "stack") }
-DeclsAll  == DeclsSvc \cup DeclsTrig \cup DeclsMulti \cup DeclsArgs \cup
-             { Dc({"a", "a.old", "a.x", "b", "c"}, {"e2"}, {"startup"}, {"s2"}, "optional", "stack"),
-               Dc({"c"}, {"e1", "e2"}, {"shutdown", "timer"}, {}, "none", "stack"),
-               Dc({}, {}, {"startup", "shutdown"}, {"s1", "s2"}, "optional", "args") }
+\* the declarations; a configuration selects some by index (constant DeclSet)
+DeclList == <<
+  Dc({}, {}, {}, {"s1"}, "none", "stack"),                                        \*  1 service
+  Dc({}, {}, {}, {"s1"}, "optional", "stack"),                                    \*  2 service returning a response
+  Dc({}, {}, {}, {"s1", "s2"}, "only", "stack"),                                  \*  3 two aliases, response only
+  Dc({}, {"e1"}, {}, {"s2"}, "none", "stack"),                                    \*  4 service + event trigger
+  Dc({"a"}, {}, {}, {}, "none", "stack"),                                         \*  5 any change of one entity
+  Dc({"a", "a.old", "b"}, {"e1"}, {}, {}, "none", "stack"),                       \*  6 two names of one entity + another entity
+  Dc({}, {"e1"}, {"startup", "shutdown"}, {}, "none", "stack"),                   \*  7 startup / shutdown
+  Dc({"b"}, {}, {"timer"}, {"s1"}, "none", "stack"),                              \*  8 timer + state + service
+  Dc({"a", "a.old", "b", "c"}, {}, {}, {}, "none", "stack"),                      \*  9 the notify_del witness
+  Dc({"b"}, {}, {}, {}, "none", "stack"),                                         \* 10
+  Dc({}, {"e1"}, {}, {"s1", "s2"}, "none", "args"),                               \* 11 aliases as arguments of one @service
+  Dc({"a", "a.old", "a.x", "b", "c"}, {"e2"}, {"startup"}, {"s2"}, "optional", "stack"),   \* 12 everything
+  Dc({"c"}, {"e1", "e2"}, {"shutdown", "timer"}, {}, "none", "stack"),            \* 13
+  Dc({}, {}, {"startup", "shutdown"}, {"s1", "s2"}, "optional", "args"),          \* 14
+  Dc({}, {}, {}, {"s2"}, "only", "stack"),                                        \* 15
+  Dc({"b", "c"}, {"e2"}, {"startup"}, {}, "none", "stack") >>                     \* 16
+AllDecls == 1..Len(DeclList)
 \* declarations outside the loci of the known deviations (one name per entity, one @service per alias)
-DeclsMasked == { d \in DeclsAll : d.sf = "stack" /\ Cardinality(Ents(d)) = Cardinality(d.st) }
-Decls == CASE DeclSet = "masked" -> DeclsMasked [] DeclSet = "svc" -> DeclsSvc [] DeclSet = "trig" -> DeclsTrig [] DeclSet = "multi" -> DeclsMulti
-           [] DeclSet = "args" -> DeclsArgs [] OTHER -> DeclsAll
+MaskedDecls == { i \in AllDecls : DeclList[i].sf = "stack" /\ Cardinality(Ents(DeclList[i])) = Cardinality(DeclList[i].st) }
+Decls == { DeclList[i] : i \in DeclSet }
 Data == {"-", "p=1", "p=2,q=x"}
 \* outgoing service calls from scripts: keywords given -> data that must be delivered
 OutCases == { [give |-> "p=1", deliver |-> "p=1"], [give |-> "p=2,q=x", deliver |-> "p=2,q=x"],
@@ -85,7 +92,8 @@ vars == <<flags, sub, started, unloaded, loaded, G, bind, cont, cnt, own, hd, su
 \*   shutdown run counters.  status: "delayed" (context not started yet) | "zdelayed" (delayed, lost its last
 \*   reference, will be started anyway: deviation) | "live" | "zombie" (live without reference: deviation) |
 \*   "pending" (deactivation deferred, Eager = FALSE) | "dead" (was active) | "dropped" (never active) |
-\*   "inert" (referenced, activation refused)
+\*   "inert" (referenced, activation refused: another context owns a service name) | "spurious" (referenced,
+\*   activation refused by a deviation)
 \* runs = runs caused by the LAST step (set of [g, k, x, data]);  res = result of the last Call / Out
 \* Occurrences (Fire / SetState / Call / Out) change runs and res only and do not count as steps: with VIEW they
 \* are leaves of the exhaustive search; what they run is constrained by action properties.
@@ -98,7 +106,6 @@ MaxOf(S) == CHOOSE x \in S : \A y \in S : y <= x
 SortedSeq(S) == LET RECURSIVE F(_)
                     F(T) == IF T = {} THEN <<>> ELSE LET m == CHOOSE x \in T : \A y \in T : x <= y IN <<m>> \o F(T \ {m})
                 IN F(S)
-CtxAuto(c) == c = Session \/ started
 Gen == 1..Len(G)
 IsActive(st) == st \in {"live", "zombie", "pending"}
 
@@ -123,7 +130,10 @@ Declarers(w, s) == { h \in 1..Len(w.G) : IsActive(w.G[h].s) /\ s \in w.G[h].d.sv
 \* start the triggers and register the services of g (register: count + 1, HA holds g's callback)
 Activate(w, g, zombie) ==
   LET d == w.G[g].d IN
-  IF Refused(d) \/ Conflict(w, g) THEN [w EXCEPT !.G[g].s = "inert"]
+  IF Refused(d) \/ Conflict(w, g)
+  THEN \* "inert": refused because ANOTHER context owns a name (intended); "spurious": refused by a deviation
+       [w EXCEPT !.G[g].s = IF ~Refused(d) /\ \E s \in d.svc : w.own[s] \notin {NoOwner, w.G[g].c, w.G[g].c \o "!run"}
+                            THEN "inert" ELSE "spurious"]
   ELSE [w EXCEPT !.G[g].s = IF zombie THEN "zombie" ELSE "live",
                  !.G[g].su = IF "startup" \in d.tt THEN @ + 1 ELSE @,
                  !.cnt = [s \in Svc |-> IF s \in d.svc THEN @[s] + 1 ELSE @[s]],
@@ -195,7 +205,7 @@ Trans(b1, k1, newG, stopC, startC, lk) ==
                 LET r == w2.G[g] IN
                 IF g <= n0 /\ r.s \in {"delayed", "zdelayed"} /\ r.c \in stopC THEN [r EXCEPT !.s = "dropped"]
                 ELSE IF r.s = "delayed" /\ ~RefIn(g, b1, k1) THEN [r EXCEPT !.s = IF zflag THEN "zdelayed" ELSE "dropped"]
-                ELSE IF r.s = "inert" /\ ~RefIn(g, b1, k1) THEN [r EXCEPT !.s = "dropped"]
+                ELSE IF r.s \in {"inert", "spurious"} /\ ~RefIn(g, b1, k1) THEN [r EXCEPT !.s = "dropped"]
                 ELSE r]
       w3  == [w2 EXCEPT !.G = G3]
       go  == { g \in 1..Len(G1) : G3[g].s \in {"delayed", "zdelayed"} /\ G3[g].c \in startC }
@@ -223,13 +233,10 @@ Apply(b1, k1, newG, stopC, startC, delayedStart) ==
 
 NewGen(c, d, via) == [c |-> c, d |-> d, via |-> via, s |-> "new", su |-> 0, sd |-> 0]
 \* cross-context conflicts are generated only for declarations with ONE service (what happens to the other
-\* decorators of a refused function is not specified and differs between the subsystems); before HA has
-\* started no cross-context overlap is generated at all (who comes first is not specified)
-DeclaredElsewhere(c, s) == \E g \in Gen : G[g].c # c /\ G[g].s \in {"delayed", "live", "pending", "inert"} /\ s \in G[g].d.svc
+\* decorators of a refused function is not specified and differs between the subsystems)
 OwnedElsewhere(c, s) == own[s] \notin {NoOwner, c, c \o "!run"}
-ConflictOK(c, d) == /\ (\E s \in d.svc : OwnedElsewhere(c, s)) => Cardinality(d.svc) = 1
-                    /\ ~started => ~\E s \in d.svc : DeclaredElsewhere(c, s)
-ExecOK(c) == c \in loaded /\ CtxAuto(c)
+ConflictOK(c, d) == (\E s \in d.svc : OwnedElsewhere(c, s)) => Cardinality(d.svc) = 1
+ExecOK(c) == started /\ c \in loaded
 
 \* ------------------------------------------------------------------ actions
 Define(c, n, d) ==        \* def / redefinition of global name n (top level statement, Jupyter cell)
@@ -277,34 +284,47 @@ ContentOK(c, defs) ==
   /\ \A i \in 1..Len(defs) : ConflictOK(c, defs[i].d)
   \* a definition overwritten during the load never starts; whether its shutdown trigger runs is not specified
   /\ \A i \in 1..Len(defs) : (\E j \in (i + 1)..Len(defs) : defs[j].n = defs[i].n) => "shutdown" \notin defs[i].d.tt
-NoDelayedShutdown(cs) == \A g \in Gen : (G[g].c \in cs /\ G[g].s = "delayed") => "shutdown" \notin G[g].d.tt
 Reload(c, defs) ==
-  /\ "reload" \in Acts /\ c # Session /\ Len(G) + Len(defs) <= MaxGen /\ ContentOK(c, defs) /\ NoDelayedShutdown({c})
+  /\ "reload" \in Acts /\ started /\ c # Session /\ Len(G) + Len(defs) <= MaxGen /\ ContentOK(c, defs)
   /\ Step([a |-> "reload", c |-> c, defs |-> defs, g |-> Len(G) + 1])
   /\ LET last(n) == { i \in 1..Len(defs) : defs[i].n = n }
          b1 == [bind EXCEPT ![c] = [n \in Name |-> IF last(n) = {} THEN 0 ELSE Len(G) + MaxOf(last(n))]]
          newG == [i \in 1..Len(defs) |-> [NewGen(c, defs[i].d, "file") EXCEPT !.s = "delayed"]]
-     IN Apply(b1, [cont EXCEPT ![c] = EmptyCont], newG, {c}, IF started THEN {c} ELSE {}, TRUE)
+     IN Apply(b1, [cont EXCEPT ![c] = EmptyCont], newG, {c}, {c}, TRUE)
   /\ loaded' = loaded \cup {c}
   /\ UNCHANGED <<started, unloaded>>
 
 \* remove the file and reload / close the Jupyter session
 Close(c) ==
-  /\ "close" \in Acts /\ c \in loaded /\ NoDelayedShutdown({c}) /\ Step([a |-> "close", c |-> c])
+  /\ "close" \in Acts /\ started /\ c \in loaded /\ Step([a |-> "close", c |-> c])
   /\ Apply([bind EXCEPT ![c] = [n \in Name |-> 0]], [cont EXCEPT ![c] = EmptyCont], <<>>, {c}, {}, FALSE)
   /\ loaded' = loaded \ {c}
   /\ UNCHANGED <<started, unloaded>>
 
 Unload ==                 \* unload the integration
-  /\ "unload" \in Acts /\ NoDelayedShutdown(Ctx) /\ Step([a |-> "unload"])
+  /\ "unload" \in Acts /\ started /\ Step([a |-> "unload"])
   /\ Apply([c \in Ctx |-> [n \in Name |-> 0]], [c \in Ctx |-> EmptyCont], <<>>, Ctx, {}, FALSE)
   /\ loaded' = {} /\ unloaded' = TRUE
   /\ UNCHANGED started
 
-HassStart ==              \* EVENT_HOMEASSISTANT_STARTED: the file and app contexts are started
-  /\ "start" \in Acts /\ ~started /\ Step([a |-> "start"])
+\* The integration is set up while HA is starting, with the given file contents (d1 for c1, d2 for c2): the
+\* definitions are evaluated but nothing starts until EVENT_HOMEASSISTANT_STARTED; then every file / app context is
+\* started.  (A reload before that event starts all contexts as well, so this is the only delayed phase.)
+\* Who wins a cross-context service conflict during this phase is not specified: not generated.
+SvcOf(defs) == UNION { defs[i].d.svc : i \in 1..Len(defs) }
+Boot(d1, d2) ==
+  /\ "boot" \in Acts /\ ~started /\ Len(d1) + Len(d2) <= MaxGen
+  /\ ContentOK("c1", d1) /\ ContentOK("c2", d2) /\ SvcOf(d1) \cap SvcOf(d2) = {}
+  /\ ("c1" \notin Ctx => d1 = <<>>) /\ ("c2" \notin Ctx => d2 = <<>>)
+  /\ Step([a |-> "boot", d1 |-> d1, d2 |-> d2, g |-> 1])
   /\ started' = TRUE
-  /\ Apply(bind, cont, <<>>, {}, (Ctx \ {Session}) \cap loaded, TRUE)
+  /\ LET last(defs, n) == { i \in 1..Len(defs) : defs[i].n = n }
+         bnd(defs, off) == [n \in Name |-> IF last(defs, n) = {} THEN 0 ELSE off + MaxOf(last(defs, n))]
+         b1 == [c \in Ctx |-> IF c = "c1" THEN bnd(d1, 0) ELSE IF c = "c2" THEN bnd(d2, Len(d1)) ELSE bind[c]]
+         newG == [i \in 1..(Len(d1) + Len(d2)) |->
+                    IF i <= Len(d1) THEN [NewGen("c1", d1[i].d, "file") EXCEPT !.s = "delayed"]
+                    ELSE [NewGen("c2", d2[i - Len(d1)].d, "file") EXCEPT !.s = "delayed"]]
+     IN Apply(b1, cont, newG, {}, Ctx \ {Session}, TRUE)
   /\ UNCHANGED <<unloaded, loaded>>
 
 Occur(a, rs, r) == /\ ~unloaded /\ lastAct' = a /\ runs' = rs /\ res' = r
@@ -314,9 +334,10 @@ Fire(e) == /\ "fire" \in Acts /\ started
 SetState(x) == /\ "set" \in Acts /\ started
                /\ Occur([a |-> "set", x |-> x], { Run(g, "state", x, "-") : g \in { h \in subs[x] : IsActive(G[h].s) } }, NoRes)
 \* service call from outside; rr = return_response.  HA itself refuses rr for a service registered without
-\* response support and a plain call of a response-only service.
+\* response support.  A plain call of a response-only service is not generated: HA refuses it when the
+\* registration carries the enum, the statement does not ask for that (legacy registers the raw string).
 Call(s, data, rr) ==
-  /\ "call" \in Acts /\ started
+  /\ "call" \in Acts /\ started /\ (hd[s] # 0 /\ G[hd[s]].d.resp = "only" => rr)
   /\ LET a == [a |-> "call", s |-> s, data |-> data, rr |-> rr] IN
      IF hd[s] = 0 THEN Occur(a, {}, [k |-> "notfound", g |-> 0, data |-> "-"])
      ELSE LET g == hd[s]  rp == G[g].d.resp IN
@@ -339,23 +360,32 @@ Complete(g, name) ==
 StopDeferred(g) == sub = "dm" /\ Complete(g, "stopdeferred")
 ReaperCancel(g) == sub = "legacy" /\ Complete(g, "reapercancel")
 
+\* two-definition contents: with many declarations only a representative few are paired (service, service +
+\* event, several names of one entity + event, startup / shutdown + event); the random sequences (T) pair all
+PairDecls == IF Cardinality(Decls) <= 4 THEN Decls ELSE { DeclList[i] : i \in DeclSet \cap {1, 4, 6, 7} }
 Contents == { <<>> } \cup (IF MaxDefs >= 1 THEN { <<[n |-> n, d |-> d]>> : n \in Name, d \in Decls } ELSE {})
             \cup (IF MaxDefs >= 2 THEN { <<[n |-> n1, d |-> d1], [n |-> n2, d |-> d2]>> :
-                                          n1 \in Name, n2 \in Name, d1 \in Decls, d2 \in Decls } ELSE {})
+                                          n1 \in Name, n2 \in Name, d1 \in PairDecls, d2 \in PairDecls } ELSE {})
 
-Next == \/ \E c \in Ctx, n \in Name, d \in Decls : Define(c, n, d)
-        \/ \E c \in Ctx, n \in Name : Del(c, n)
-        \/ \E c \in Ctx, n \in Name, m \in Name : Rebind(c, n, m)
-        \/ \E c \in Ctx, d \in Decls, wh \in {"L", "D"}, via \in Vias : Push(c, d, wh, via)
-        \/ \E c \in Ctx : Pop(c) \/ Close(c)
-        \/ \E c \in Ctx, wh \in {"L", "D"} : Clear(c, wh)
-        \/ \E c \in Ctx, defs \in Contents : Reload(c, defs)
-        \/ Unload \/ HassStart
-        \/ \E e \in Ev : Fire(e)
-        \/ \E x \in Ent : SetState(x)
-        \/ \E s \in Svc, data \in Data, rr \in BOOLEAN : Call(s, data, rr)
-        \/ \E c \in Ctx, f \in OutForms, oc \in OutCases : Out(c, f, oc)
-        \/ \E g \in Gen : StopDeferred(g) \/ ReaperCancel(g)
+\* with many declarations the pairs of two-definition contents are too many to enumerate at boot
+BootContents == IF Cardinality(Decls) > 4 THEN { c \in Contents : Len(c) <= 1 } ELSE Contents
+\* One disjunct per kind of action, parameters quantified behind a guard: TLC's simulator picks a disjunct
+\* first, so the kinds are drawn evenly whatever the number of their parameter values.
+Next == \/ (started /\ \E c \in Ctx, n \in Name, d \in Decls : Define(c, n, d))
+        \/ (started /\ \E c \in Ctx, n \in Name : Del(c, n))
+        \/ (started /\ \E c \in Ctx, n \in Name, m \in Name : Rebind(c, n, m))
+        \/ (started /\ \E c \in Ctx, d \in Decls, wh \in {"L", "D"}, via \in Vias : Push(c, d, wh, via))
+        \/ (started /\ \E c \in Ctx : Pop(c))
+        \/ (started /\ \E c \in Ctx : Close(c))
+        \/ (started /\ \E c \in Ctx, wh \in {"L", "D"} : Clear(c, wh))
+        \/ (started /\ \E c \in Ctx, defs \in Contents : Reload(c, defs))
+        \/ Unload
+        \/ (~started /\ \E d1 \in BootContents, d2 \in BootContents : Boot(d1, d2))
+        \/ (started /\ \E e \in Ev : Fire(e))
+        \/ (started /\ \E x \in Ent : SetState(x))
+        \/ (started /\ \E s \in Svc, data \in Data, rr \in BOOLEAN : Call(s, data, rr))
+        \/ (started /\ \E c \in Ctx, f \in OutForms, oc \in OutCases : Out(c, f, oc))
+        \/ (started /\ \E g \in Gen : StopDeferred(g) \/ ReaperCancel(g))
 Spec == Init /\ [][Next]_vars
 View == <<flags, sub, started, unloaded, loaded, G, bind, cont, cnt, own, hd, subs, lst, tm, steps>>
 
@@ -368,6 +398,7 @@ Clean == /\ \A s \in Svc : cnt[s] = 0 /\ hd[s] = 0 /\ own[s] = NoOwner
          /\ tm = {}
 Proj == [ runs |-> runs, res |-> res,
           cnt  |-> [s \in Svc |-> cnt[s]], has |-> [s \in Svc |-> hd[s] # 0], own |-> [s \in Svc |-> own[s]],
+          sr   |-> [s \in Svc |-> IF hd[s] = 0 THEN "-" ELSE G[hd[s]].d.resp],
           sub  |-> [x \in Ent |-> Cardinality(subs[x])],
           evq  |-> [e \in Ev |-> Cardinality(lst[e])],
           evl  |-> [e \in Ev |-> IF sub = "legacy" THEN Min(1, Cardinality(lst[e])) ELSE Cardinality(lst[e])],
@@ -379,7 +410,7 @@ Proj == [ runs |-> runs, res |-> res,
 
 \* ------------------------------------------------------------------ invariants (quiescent states)
 LiveGens == { g \in Gen : G[g].s = "live" }
-ShouldBeActive(g) == Referenced(g) /\ G[g].c \in loaded /\ CtxAuto(G[g].c) /\ G[g].s # "inert"
+ShouldBeActive(g) == Referenced(g) /\ G[g].c \in loaded /\ G[g].s # "inert"
 \* C09
 ActiveIffReferencedAndLoaded ==
   Quiescent => \A g \in Gen : (G[g].s \in {"live", "zombie"}) <=> ShouldBeActive(g)
